@@ -433,6 +433,9 @@ type tr struct {
 	allocs   []allocInfo
 	escapes  map[ssa.Value]bool // allocation sites whose address may be stored in memory / retained by a callee
 	taint    map[ssa.Value]map[ssa.Value]bool
+	ext      map[ssa.Value]bool              // value may reference an object not allocated by this invocation
+	escEvents map[ssa.Value][]ssa.Instruction // allocation site -> instructions at which (a pointer into) it may escape
+	breach   map[*ssa.BasicBlock]map[*ssa.BasicBlock]bool // CFG reachability over >= 1 edge
 
 	loopHdr   map[*ssa.BasicBlock]int
 	loopBody  map[*ssa.BasicBlock]map[*ssa.BasicBlock]bool
@@ -443,6 +446,12 @@ type tr struct {
 	ownTg     map[string][]modTarget
 	specFacts map[string]bool
 	stopped   bool
+	assertsSeen map[string]bool
+	callOrd   map[ssa.Instruction]int
+	predDefs  map[string]string
+	qsort     map[string]string
+	opaquePreds map[string]bool          // predicates treated as uninterpreted over their footprint in this unit
+	footprint map[string]*predFootprint // computed footprints of opaque predicates
 	dryRun    int // >0: expressions are evaluated only for their shape (no facts are emitted)
 	pfx       string // name prefix of an inlined callee
 	parent    *tr
@@ -491,9 +500,16 @@ func newTr(eng *Engine, fn *ssa.Function) *tr {
 		heapAt: map[*ssa.BasicBlock]map[string]string{}, heapIn: map[*ssa.BasicBlock]map[string]string{}, heapN: map[string]int{}, heap0: map[string]string{}, heapSorts: map[string]string{},
 		oblNames: map[string]int{}, loopHdr: map[*ssa.BasicBlock]int{}, loopBody: map[*ssa.BasicBlock]map[*ssa.BasicBlock]bool{}, loopState: map[*ssa.BasicBlock]*loopCut{}, callCount: map[string]int{},
 		unknownCallees: map[string]bool{}, trustedUsed: map[string]bool{}, contractsUsed: map[string]bool{}, abstracted: map[string]int{},
-		escapes: map[ssa.Value]bool{}, taint: map[ssa.Value]map[ssa.Value]bool{}, letCache: map[string]*sv{}, specFacts: map[string]bool{}}
+		escapes: map[ssa.Value]bool{}, taint: map[ssa.Value]map[ssa.Value]bool{}, letCache: map[string]*sv{}, specFacts: map[string]bool{}, assertsSeen: map[string]bool{}, predDefs: map[string]string{}, qsort: map[string]string{}}
 	t.fnKey = fn.String()
 	t.own = eng.specs.Funcs[t.fnKey]
+	t.opaquePreds = map[string]bool{}
+	t.footprint = map[string]*predFootprint{}
+	if t.own != nil {
+		for _, n := range t.own.Opaque {
+			t.opaquePreds[n] = true
+		}
+	}
 	if fn.Pkg != nil {
 		t.pkg = fn.Pkg.Pkg
 	} else if fn.Parent() != nil && fn.Parent().Pkg != nil {
@@ -736,11 +752,35 @@ func locPlusTerm(loc, idx string) string {
 
 // sliceElemLoc: address of element idx of slice s. Elements of more than one cell are addressed through the
 // uninterpreted cidx(base, stride, i, field) (= base + stride*i + field): triggers then contain no arithmetic.
-func sliceElemLoc(s, idx string, stride int) string {
-	if stride > 1 {
-		return fmt.Sprintf("(mkloc (styp %s) (sref %s) (cidx (soff %s) %d %s 0))", s, s, s, stride, idx)
+func sliceElemLoc(s, idx string, stride int, tagConst string) string {
+	typ := "(styp " + s + ")"
+	if tagConst != "" {
+		typ = tagConst // the allocation type of the backing object is determined by the element type (typed memory)
 	}
-	return fmt.Sprintf("(mkloc (styp %s) (sref %s) %s)", s, s, addTerms("(soff "+s+")", idx))
+	if stride > 1 {
+		return fmt.Sprintf("(mkloc %s (sref %s) (cidx (soff %s) %d %s 0))", typ, s, s, stride, idx)
+	}
+	return fmt.Sprintf("(mkloc %s (sref %s) %s)", typ, s, addTerms("(soff "+s+")", idx))
+}
+
+// sliceTagConst: the constant allocation tag of the backing object of a slice type, when its element type occurs in no
+// (non-empty) array type; "" otherwise.
+func (t *tr) sliceTagConst(ty types.Type) string {
+	st, ok := ty.Underlying().(*types.Slice)
+	if !ok || t.eng.arrayElem[types.TypeString(st.Elem(), nil)] {
+		return ""
+	}
+	return fmt.Sprint(t.eng.sliceTag(ty))
+}
+
+// fieldLoc: address of a field reached through pointer term p of static type pty. When the pointee is a named struct
+// that is never embedded by value, the address uses the constant allocation tag and cell offset (type invariant).
+func (t *tr) fieldLoc(p string, pty types.Type, off int) string {
+	if tag, ok := t.ptrTypeInvariant(pty); ok {
+		_, r, _ := locParts(p)
+		return fmt.Sprintf("(mkloc %d %s %d)", tag, r, off)
+	}
+	return locPlus(p, off)
 }
 
 // ---------------------------------------------------------------- values
@@ -809,6 +849,12 @@ func (t *tr) constTerms(c *ssa.Const) []string {
 
 // define introduces a named constant equal to expr for an SSA value.
 func (t *tr) define(x ssa.Value, sort, expr string) string {
+	if sort == "Loc" && strings.HasPrefix(expr, "(mkloc ") && len(expr) < 400 {
+		// an address built from known components stays a term: later accesses then see its allocation tag, object and
+		// cell syntactically (no (ltyp v) indirection for the solver to resolve)
+		t.val[x] = []string{expr}
+		return expr
+	}
 	n := fmt.Sprintf("v%s%d_%s", t.pfx, len(t.val), sanitize(x.Name()))
 	fmt.Fprintf(&t.decls, "(declare-const %s %s)\n", n, sort)
 	fmt.Fprintf(&t.out, "(assert (= %s %s))\n", n, expr)
@@ -1057,6 +1103,10 @@ func (t *tr) computeEscapes() {
 				if leafSort(x.Type()) == "slice" {
 					sites[x] = true
 				}
+			case *ssa.Call:
+				if bi, ok := x.Call.Value.(*ssa.Builtin); ok && bi.Name() == "append" {
+					sites[x] = true // the backing array append may allocate
+				}
 			}
 		}
 	}
@@ -1118,13 +1168,18 @@ func (t *tr) computeEscapes() {
 			}
 		}
 	}
+	t.escEvents = map[ssa.Value][]ssa.Instruction{}
+	var curIns ssa.Instruction
 	esc := func(v ssa.Value) {
 		for a := range t.taint[v] {
 			t.escapes[a] = true
+			t.escEvents[a] = append(t.escEvents[a], curIns)
 		}
 	}
+	t.computeExt()
 	for _, b := range t.fn.Blocks {
 		for _, ins := range b.Instrs {
+			curIns = ins
 			switch x := ins.(type) {
 			case *ssa.Store:
 				esc(x.Val)
@@ -1250,6 +1305,7 @@ func (t *tr) run() (err error) {
 	}
 	t.findLoops()
 	t.computeEscapes()
+	t.computeCallOrdinals()
 
 	cur := map[string]string{}
 	// parameters
@@ -1813,5 +1869,251 @@ func (t *tr) refinesPre() {
 			}
 			t.oblige("refines", fmt.Sprintf("refines/%s.pre/%s", shortName(key), r.Label), "true", fmt.Sprintf("(=> %s %s)", hyp, term), t.fn.Pos())
 		}
+	}
+}
+
+// computeCallOrdinals numbers the calls of each callee in source order (stable under block reordering).
+func (t *tr) computeCallOrdinals() {
+	t.callOrd = map[ssa.Instruction]int{}
+	by := map[string][]ssa.Instruction{}
+	for _, b := range t.fn.Blocks {
+		for _, ins := range b.Instrs {
+			c, ok := ins.(ssa.CallInstruction)
+			if !ok {
+				continue
+			}
+			cc := c.Common()
+			if _, isB := cc.Value.(*ssa.Builtin); isB {
+				continue
+			}
+			by[t.calleeName(cc)] = append(by[t.calleeName(cc)], ins)
+		}
+	}
+	for _, l := range by {
+		sort.SliceStable(l, func(i, j int) bool { return l[i].Pos() < l[j].Pos() })
+		for i, ins := range l {
+			t.callOrd[ins] = i + 1
+		}
+	}
+}
+
+func (t *tr) calleeName(cc *ssa.CallCommon) string {
+	switch {
+	case cc.IsInvoke():
+		return "invoke:" + types.TypeString(cc.Value.Type(), nil) + "." + cc.Method.Name()
+	case cc.StaticCallee() != nil:
+		return cc.StaticCallee().String()
+	}
+	if k, _ := t.globalFuncCallee(cc); k != "" {
+		return k
+	}
+	return "<dynamic>"
+}
+
+// computeExt: ext[v] - v may reference an object that was not allocated by this invocation of the function (a
+// parameter, something loaded from memory, a call result ...). Values with ext false point only into the allocation
+// sites recorded in taint[v].
+func (t *tr) computeExt() {
+	t.ext = map[ssa.Value]bool{}
+	get := func(v ssa.Value) bool {
+		switch x := v.(type) {
+		case *ssa.Const:
+			return false
+		case *ssa.Parameter, *ssa.FreeVar, *ssa.Global, *ssa.Function, *ssa.Builtin:
+			_ = x
+			return true
+		}
+		return t.ext[v]
+	}
+	for changed := true; changed; {
+		changed = false
+		for _, b := range t.fn.Blocks {
+			for _, ins := range b.Instrs {
+				v, isVal := ins.(ssa.Value)
+				if !isVal || t.ext[v] {
+					continue
+				}
+				e := true
+				switch x := ins.(type) {
+				case *ssa.Alloc, *ssa.MakeSlice, *ssa.MakeMap, *ssa.MakeChan:
+					e = false
+				case *ssa.FieldAddr:
+					e = get(x.X)
+				case *ssa.IndexAddr:
+					e = get(x.X)
+				case *ssa.Slice:
+					e = get(x.X)
+				case *ssa.MakeInterface:
+					e = get(x.X)
+				case *ssa.ChangeType:
+					e = get(x.X)
+				case *ssa.ChangeInterface:
+					e = get(x.X)
+				case *ssa.Convert:
+					if leafSort(x.Type()) == "slice" {
+						if _, fromStr := x.X.Type().Underlying().(*types.Basic); fromStr {
+							e = false // string -> []byte: a fresh array
+							break
+						}
+					}
+					e = get(x.X)
+				case *ssa.SliceToArrayPointer:
+					e = get(x.X)
+				case *ssa.Phi:
+					e = false
+					for _, ed := range x.Edges {
+						if get(ed) {
+							e = true
+						}
+					}
+				case *ssa.Call:
+					if bi, ok := x.Call.Value.(*ssa.Builtin); ok && bi.Name() == "append" {
+						e = get(x.Call.Args[0])
+					}
+				}
+				if e {
+					t.ext[v] = true
+					changed = true
+				}
+			}
+		}
+	}
+	// CFG reachability
+	t.breach = map[*ssa.BasicBlock]map[*ssa.BasicBlock]bool{}
+	for _, b := range t.fn.Blocks {
+		seen := map[*ssa.BasicBlock]bool{}
+		var dfs func(x *ssa.BasicBlock)
+		dfs = func(x *ssa.BasicBlock) {
+			for _, s := range x.Succs {
+				if !seen[s] {
+					seen[s] = true
+					dfs(s)
+				}
+			}
+		}
+		dfs(b)
+		t.breach[b] = seen
+	}
+}
+
+func instrIndex(ins ssa.Instruction) int {
+	for i, x := range ins.Block().Instrs {
+		if x == ins {
+			return i
+		}
+	}
+	return -1
+}
+
+// mayPrecede: can instruction e execute before instruction c in one invocation?
+func (t *tr) mayPrecede(e, c ssa.Instruction) bool {
+	if e.Block() == c.Block() && instrIndex(e) < instrIndex(c) {
+		return true
+	}
+	return t.breach[e.Block()][c.Block()]
+}
+
+// preservePrivate: a callee cannot reach objects that this invocation allocated and that have not escaped before the
+// call (never stored into memory, captured, sent or passed to a retaining callee) and are not passed to it. Their
+// contents survive the call whatever its modifies clause says. pre/post are the heap versions around the call.
+func (t *tr) preservePrivate(ins ssa.Instruction, cc *ssa.CallCommon, R string, pre, post map[string]string) {
+	if t.parent != nil || t.ext == nil {
+		return
+	}
+	changed := map[string]bool{}
+	for h, v := range post {
+		if strings.HasPrefix(h, "H_") && pre[h] != "" && pre[h] != v {
+			changed[h] = true
+		}
+	}
+	if len(changed) == 0 {
+		return
+	}
+	passed := map[ssa.Value]bool{}
+	for _, a := range cc.Args {
+		for s := range t.taint[a] {
+			passed[s] = true
+		}
+	}
+	for s := range t.taint[cc.Value] {
+		passed[s] = true
+	}
+	cb := ins.Block()
+	var cands []ssa.Value
+	for v := range t.val {
+		ls := leafSort(v.Type())
+		if ls != "loc" && ls != "slice" {
+			continue
+		}
+		if t.ext[v] || len(t.taint[v]) == 0 {
+			continue
+		}
+		vi, ok := v.(ssa.Instruction)
+		if !ok || vi.Block() == nil || vi.Parent() != t.fn {
+			continue
+		}
+		if vi.Block() == cb {
+			if instrIndex(vi) >= instrIndex(ins) {
+				continue
+			}
+		} else if !vi.Block().Dominates(cb) {
+			continue
+		}
+		okv := true
+		for s := range t.taint[v] {
+			if passed[s] {
+				okv = false
+				break
+			}
+			for _, e := range t.escEvents[s] {
+				if e == ins || t.mayPrecede(e, ins) {
+					okv = false
+					break
+				}
+			}
+			if !okv {
+				break
+			}
+		}
+		if okv {
+			cands = append(cands, v)
+		}
+	}
+	sort.Slice(cands, func(i, j int) bool { return cands[i].Name() < cands[j].Name() })
+	done := map[string]bool{}
+	for _, v := range cands {
+		term := t.val[v][0]
+		var typ, ref string
+		var content types.Type
+		switch u := v.Type().Underlying().(type) {
+		case *types.Pointer:
+			a, b, _ := locParts(term)
+			typ, ref, content = a, b, u.Elem()
+			if tag, ok := t.ptrTypeInvariant(v.Type()); ok {
+				typ = fmt.Sprint(tag)
+			}
+		case *types.Slice:
+			typ, ref, content = "(styp "+term+")", "(sref "+term+")", u.Elem()
+			if tc := t.sliceTagConst(v.Type()); tc != "" {
+				typ = tc
+			}
+		default:
+			continue
+		}
+		for _, ls := range uniq(leaves(content)) {
+			h := "H_" + ls
+			if !changed[h] {
+				continue
+			}
+			key := h + "|" + typ + "|" + ref
+			if done[key] {
+				continue
+			}
+			done[key] = true
+			t.assume(R, fmt.Sprintf("(=> (not (= %s 0)) (= (select (select %s %s) %s) (select (select %s %s) %s)))", ref, post[h], typ, ref, pre[h], typ, ref))
+		}
+	}
+	if len(cands) > 0 {
+		t.abstractf("FRAME: objects allocated by the function and not escaped before a call are unchanged by it (escape analysis)")
 	}
 }
